@@ -41,11 +41,25 @@ def generate(seed: int, tier: str) -> dict:
         value = rng.choice([str(tag), '"v%d"' % tag, "[ %d ]" % tag, "{ k = %d; }" % tag, "[\n  %d\n  %d\n]" % (tag, tag + 1)])
         return {"prop": "C19", "engine": "laws", "seed": seed, "tier": tier, "doc": prog["text"], "law": "L1",
                 "ops": [{"op": "set", "path": ".".join(probe), "value": value}], "reference_doc": True}
+    if st("kind").random() < 0.08:
+        # one-line holders and VALUEs that span lines or carry a comment: the holder switches to the multi-line layout
+        # for the value and - on the same object - back when the value goes or is replaced by a one-line one
+        rng = st("law")
+        tag = (seed % 9000 + 1000) * 100
+        holder = rng.choice(["{ a = %d; }\n", "{ a = %d; b = [ 1 2 ]; }\n", "f { a = %d; }\n", "with lib;\n{ c = %d; }\n", "{ lib }: { a = %d; }\n",
+                             "let\n  v = 1;\nin\n{ a = %d; }\n", "rec { a = %d; }\n", "lib.mk { a = %d; } 2\n"]) % tag
+        value = rng.choice(["[\n  %d\n  %d\n]", "{\n  k = %d;\n  j = %d;\n}", "''\n  foo %d\n  bar %d\n''", "\"a%d\nb%d\"", "f {\n  x = %d;\n  y = %d;\n}"]) % (tag + 1, tag + 2)
+        law = rng.choice(["L1", "L2", "L2"])
+        return {"prop": "C19", "engine": "laws", "seed": seed, "tier": tier, "doc": holder, "law": law,
+                "ops": [{"op": "set", "path": rng.choice(["n", "zz", "a0"]), "value": value}], "inline_holder": True}
     cfg = gen.swarm(st("swarm"), tier, profile="scope" if st("swarm").random() < 0.4 else "edit")
     cfg["perturb"] = False
     cfg["trailing_blank"] = False  # the laws speak about canonically formatted documents
     # VALUEs that carry their own end-of-line comment (`2 # note`): part of "all values"
     cfg["commented_values"] = True
+    # one case in four prefers VALUEs that span several lines (they switch a one-line set to the multi-line layout;
+    # on a live object the switch must be undone with the value)
+    cfg["multiline_boost"] = st("swarm").random() < 0.25
     from .props import MAX_DOC_LINES
 
     doc = gen.DocGen(st("doc"), cfg, docnum=seed % 1000).document()
